@@ -124,6 +124,14 @@ def step (s : St) (line : String) : St × String :=
         let file := match disk.read p with | some bs => Bytes.toHexTok bs | none => "-"
         let l := showLoad (GenesisFile.loadAt disk p)
         ({ s with disk := if p = 0 then s.disk else disk }, s!"val={v} file={file} load={l}")
+  | "gfile" =>   -- raw bytes written to the path (`at=<n>`, else a fresh one), then `LoadGenesis`
+    match Bytes.ofHex (o.str "hex"), slotOf o with
+    | none, _ => (s, "bad-op")
+    | _, some none => (s, "bad-op")
+    | some bs, slot =>
+      let p := match slot with | some (some p) => p + 1 | _ => 0
+      let disk := GenesisFile.writeTrunc s.disk p bs
+      ({ s with disk := if p = 0 then s.disk else disk }, "load=" ++ showLoad (GenesisFile.loadAt disk p))
   | "gload" =>
     match slotOf o with
     | some (some p) => (s, "load=" ++ showLoad (GenesisFile.loadAt s.disk (p + 1)))
